@@ -135,24 +135,26 @@ Definition is_done (p : pc) : bool :=
 
 Definition pc_of (s : est) (i : nat) : pc := nth i (pcs s) PRefused.
 
-(* what one harness step shows: [api ret total node-counters(0..N) ns-counters(1..M)]
-   api = thread id + 1 if its API call was received during the step, else 0
-   ret = 0 still running / not started, 1 returned false, 2 returned true (only in the step
-         in which the thread returns) *)
+(* what one harness step on thread [o_tid] shows:
+   o_api  its eviction API call was received during the step
+   o_ret  0 still running / nothing happened, 1 it returned false, 2 it returned true
+   o_ct, o_cn (nodes 0..N), o_cs (namespaces 1..M): the counters read through
+   TotalEvicted / NodeEvicted / NamespaceEvicted after the step *)
+Record srec := mkS { o_tid : nat; o_api : bool; o_ret : Z; o_ct : Z; o_cn : list Z; o_cs : list Z }.
+
 Definition ret_code (before after : pc) : Z :=
   if is_done before then 0
   else match after with PDoneOk => 2 | PRefused | PDoneFail => 1 | _ => 0 end.
 
 Definition zrange (lo : Z) (n : nat) : list Z := map (fun k => lo + Z.of_nat k) (seq 0 n).
 
-Definition observe (N M : nat) (s s' : est) (i : nat) : list Z :=
-  (if Nat.eqb (length (calls s)) (length (calls s')) then 0 else Z.of_nat i + 1)
-  :: ret_code (pc_of s i) (pc_of s' i)
-  :: ct s'
-  :: map (cn s') (zrange 0 (S N)) ++ map (cs s') (zrange 1 M).
+Definition observe (N M : nat) (s s' : est) (i : nat) : srec :=
+  mkS i (negb (Nat.eqb (length (calls s)) (length (calls s'))))
+      (ret_code (pc_of s i) (pc_of s' i))
+      (ct s') (map (cn s') (zrange 0 (S N))) (map (cs s') (zrange 1 M)).
 
-Fixpoint run_obs (hstep : est -> nat -> est) (N M : nat) (sched : list nat) (s : est) : list Z :=
+Fixpoint trace (hstep : est -> nat -> est) (N M : nat) (sched : list nat) (s : est) : list srec :=
   match sched with
   | [] => []
-  | i :: t => let s' := hstep s i in observe N M s s' i ++ run_obs hstep N M t s'
+  | i :: t => let s' := hstep s i in observe N M s s' i :: trace hstep N M t s'
   end.
